@@ -485,13 +485,23 @@ def exec_for_invariant(engine, ctx, st: ast.For, env: Env, it, inv):
     # collections that the body mutates in place (x.add(...)) are loop-carried too: the invariant declares their kind
     modified = modified + [n for n in kinds if n in env.vars and n not in modified]
     for n in modified:
-        if n in kinds:
+        if n in kinds and getattr(inv, "in_place", False) and isinstance(env.vars[n], (SymSet, V.SymMap)) \
+                and not (isinstance(env.vars[n], SymSet) and env.vars[n].elem_sort != kinds[n].sort().domain()):
+            # collections that may be aliased (parameters): havocked in place so that every alias sees the new contents
+            from . import ext_reader
+
+            ext_reader.havoc_in_place(ctx, env.vars[n], n)
+        elif n in kinds:
             old_v = env.vars[n]
             env.vars[n] = ctx.fresh_kind(n, kinds[n])  # kind of a loop-carried variable declared by the invariant
             if hasattr(env.vars[n], "fresh"):
                 env.vars[n].fresh = getattr(old_v, "fresh", False)  # still the collection this function allocated
         else:
             env.vars[n] = fresh_like(engine, ctx, n, env.vars[n])
+    if getattr(inv, "havoc_ghost_heap", False):
+        from . import ext_reader
+
+        ext_reader.heap_havoc(ctx, grows=False)  # what the invariant says about the ghost heap is all that is known
     i = ctx.fresh("iter", z3.IntSort())
     ctx.assume(i >= lo)
     which = ctx.choose(2)
